@@ -77,8 +77,7 @@ def ioLine (fmt : Fmt) (sl : Nat) (doc : List Char) (ln : Int) (im : Bool) (c : 
   let o := docObj sl doc ln im
   let i : Int := (c.raw : Int) - (dropped doc : Nat)
   -- docutils' line structure: extra `splitlines()` boundaries before the block
-  let sh : Int := if fmt = .epytext then 0
-    else (extraBreaksIn ((cleandocLines doc).map blankExtraBreaks) (c.raw - dropped doc) : Nat)
+  let sh : Int := (lineShift fmt doc (c.raw - dropped doc) : Nat)
   let r : Line × String := match c.tag with
     | "B" => (report o .docstring (rstFieldLineno docutilsBase .bulletItem i), "P")
     | "D" => (report o .docstring (rstFieldLineno docutilsBase .deflistItem i), "P")
@@ -271,12 +270,13 @@ def handle (args : List String) : String :=
     | some im, some ln, some sl, some doc, some es, some cs =>
       let numpy := kind == "n"
       let o := docObj sl doc ln im
+      let gfmt : Fmt := if numpy then .numpy else .google
       let paras := cs.map fun c =>
-        let r := ioLine .rst sl doc ln im c
+        let r := ioLine gfmt sl doc ln im c
         showLine r.1 ++ ":" ++ r.2
       let sect := match hdrRaw.toNat? with
         | some hr =>
-          let hdr := hr - dropped doc
+          let hdr := hr - dropped doc + lineShift gfmt doc (hr - dropped doc)
           (List.range es.length).flatMap fun k =>
             [showLine (report o .docstring (convertedParamOffset numpy hdr es k)) ++ ":P"] ++
             (if ((es[k]?).map (·.typed)).getD false then
@@ -303,8 +303,7 @@ def handle (args : List String) : String :=
     | some fmt, some doc, some cs =>
       -- index of the block in the line structure the parser uses (docutils: `splitlines()`)
       let idx (c : IOCons) : Int := (c.raw : Int) - (dropped doc : Nat)
-        + (if fmt == .epytext then (0 : Int)
-           else ((extraBreaksIn ((cleandocLines doc).map blankExtraBreaks) (c.raw - dropped doc) : Nat) : Int))
+        + ((lineShift fmt doc (c.raw - dropped doc) : Nat) : Int)
       let fatal := fmt == .epytext && cs.any (fun c => c.tag == "E")
       let fields := if fatal then [] else (cs.filter fun c => ["U", "P", "B", "D"].contains c.tag).map fun c =>
         toString (if c.tag == "B" then rstFieldLineno docutilsBase .bulletItem (idx c)
